@@ -752,7 +752,10 @@ SET_OF_encode_xer(const asn_TYPE_descriptor_t *td, const void *sptr, int ilevel,
 		tmper = elm->type->op->xer_encoder(elm->type, memb_ptr,
 				ilevel + (specs->as_XMLValueList != 2),
 				flags, cb, app_key);
-		if(tmper.encoded == -1) return tmper;
+		if(tmper.encoded == -1) {
+			er = tmper;
+			goto cleanup;	/* Free the canonical ordering buffers */
+		}
 		er.encoded += tmper.encoded;
 		if(tmper.encoded == 0 && specs->as_XMLValueList) {
 			const char *name = elm->type->xml_tag;
@@ -789,7 +792,9 @@ SET_OF_encode_xer(const asn_TYPE_descriptor_t *td, const void *sptr, int ilevel,
 
 	goto cleanup;
 cb_failed:
-	ASN__ENCODE_FAILED;
+	er.encoded = -1;
+	er.failed_type = td;
+	er.structure_ptr = sptr;
 cleanup:
 	if(encs) {
 		size_t n;
@@ -798,6 +803,7 @@ cleanup:
 		}
 		FREEMEM(encs);
 	}
+	if(er.encoded == -1) return er;
 	ASN__ENCODED_OK(er);
 }
 
